@@ -6,21 +6,26 @@ larger operand, and multiplication and division to one unit in the 16th signific
 result, with overflow to infinity and underflow to zero. Comparison orders numbers by exact
 value, and converting a number to text and back yields the same number."
 
-Model: `Gsu.Model.Dnum`, the mirror of util/dnum that `Drive/C27.lean` executes with exact
-Nat/Int arithmetic (repaired: String exponent (finding 14), ToInt64 limit (fixes/27), underflow
-check after the normalising shift (fixes/C27-new-underflow.patch)). Lemmas: `Gsu/Proofs/Dnum.lean`.
+Model: `Gsu.Model.Dnum` + `Gsu.Model.Div128`, the mirror of util/dnum that `Drive/C27.lean`
+executes with exact Nat/Int arithmetic (repaired: String exponent (finding 14), ToInt64 limit
+(fixes/27), underflow check after the normalising shift (fixes/C27-new-underflow.patch)).
 
 Proved for ALL inputs (Gsu/Proofs/Dnum2, Dnum3 integer level; DnumQ, DnumQ2, DnumQ3 over ℚ):
 `compare_exact`, `new_round` (all coefficients with c + 5 < 2^64), `add_ulp`, `sub_ulp`, `mul_ulp`,
 `div_ulp` on the exact rational values `val d = sign·coef·10^(exp−16)`, with overflow and underflow
-clauses. Three statements of the property turned out FALSE of the code and have counter-witnesses
-(all reproduced with the Go code): half-ulp rounding of 18–20 digit coefficients
+clauses; `string_roundtrip` (Proofs/DnumStr) for every finite normalised decimal, zero and the
+infinities; `divide128_spec` (Model/Div128 + Proofs/Div128): the mirrored div128/divide128
+algorithm equals `a·10^16 / b` on all coefficients, so `div_ulp` holds for the implementation
+mirror `divM` without the div128 hypothesis.
+Statements of the property that turned out FALSE of the code have counter-witnesses (all
+reproduced with the Go code): half-ulp rounding of 18–20 digit coefficients
 (`new_half_ulp_counter`, true bound 5/9), premature underflow of Mul/Div
 (`mul_premature_underflow_counter`, `div_premature_underflow_counter`), uint64 wrap in New
 (`new_wrap_counter`).
 -/
 import Gsu.Proofs.DnumQ4
 import Gsu.Proofs.DnumStr
+import Gsu.Proofs.Div128
 namespace Gsu.Props.C27
 open Gsu.Dnum Gsu.Num
 
@@ -185,14 +190,56 @@ theorem mul_premature_underflow_counter :
       = val ⟨2500000000000000, 1, -127⟩ :=
   Dnum.mul_premature_underflow
 
-/-- div_ulp — FULL for the model's `div`, whose coefficient is `div128 a b = a·10^16 / b` (the
-div128 EQUATION: it is the model's definition of div128, tied to div128.go by the in-package
-differential suite; see `divide128_spec` below for the mirrored algorithm). With `q = x / y`:
+/-- divide128_spec — FULL: the mirrored implementation of div128.go (`div128m`: the 128 bit
+product `a·10^16` on 32 bit halves, the normalising shift, two rounds of quotient digit estimate
+from the high half of the divisor / correction loop / multiply-subtract, with every uint64 and
+uint32 wrap-around mirrored; `Drive/C27.lean` executes it for the `div128` and `div` lines of the
+trace) equals the specification `a·10^16 / b` for all 16 digit coefficients. This removes the
+"div128 equation" hypothesis of `div_floor` / `div_ulp`. -/
+theorem divide128_spec (a b : Nat) (ha1 : 10 ^ 15 ≤ a) (ha2 : a < 10 ^ 16)
+    (hb1 : 10 ^ 15 ≤ b) (hb2 : b < 10 ^ 16) : div128m a b = div128 a b :=
+  Dnum.divide128_spec a b ha1 ha2 hb1 hb2
+
+example : div128m 7399277442958125 1124878057708072 = 65778484985599951 := by
+  rw [Dnum.divide128_spec _ _ (by decide) (by decide) (by decide) (by decide)]; decide
+
+/-- the quotient-digit correction loop, for ANY operands (not only coefficients): from an estimate
+`q ≥ ⌊T/V⌋` with partial remainder `r = tmp − q·v1 < 2^32` it returns exactly `⌊T/V⌋`,
+`T = tmp·2^32 + u`, `V = v1·2^32 + v0`; leaving the loop when the remainder exceeds 32 bits
+is correct (the seeded defect C27-2 drops that `break`). -/
+theorem divide128_correction (v1 v0 u tmp q r : Nat)
+    (hv1 : v1 < two32) (hv0 : v0 < two32) (hu : u < two32) (hr : r < two32)
+    (hinv : r + q * v1 = tmp) (hov : q * v0 < two64) (hpos : 0 < v1)
+    (hge : (two32 * tmp + u) / (two32 * v1 + v0) ≤ q) :
+    (corrLoop v1 v0 u q r).1 = (two32 * tmp + u) / (two32 * v1 + v0) :=
+  Dnum.corrLoop_spec q v1 v0 u tmp q r (Nat.le_refl _) hv1 hv0 hu hr hinv hov hpos hge
+
+/-- `Div` as the driver executes it (`divM`, with the mirrored div128 algorithm) is the model's
+`div` (with the specification of div128) -/
+theorem divM_eq_div (x y : Dnum)
+    (h : (WF x ∧ WF y) ∨ x.sign = 0 ∨ y.sign = 0 ∨ isInf x = true ∨ isInf y = true) :
+    divM x y = div x y :=
+  Dnum.divM_eq_div x y h
+
+/-- div_ulp — FULL and UNCONDITIONAL (finite normalised operands; `divM` is Div with the mirrored
+div128 algorithm, `divide128_spec`). With `q = x / y` the exact quotient:
 * infinity only if `|q|` exceeds the largest finite decimal, with the sign of `q`;
 * zero only if `|q| < 10^−128` (`x.exp − y.exp < −128`; premature by one decade when the 17 digit
   quotient would round back into range, `div_premature_underflow_counter`);
 * otherwise finite normalised and within one unit of the 16th digit of the result. -/
 theorem div_ulp (x y : Dnum) (hx : FinN x) (hy : FinN y) :
+    (isInf (divM x y) = true →
+        (divM x y = posInf ∧ maxFinite < val x / val y) ∨
+        (divM x y = negInf ∧ val x / val y < -maxFinite)) ∧
+    (divM x y = zero → |val x / val y| < (10 : ℚ) ^ (-128 : Int)) ∧
+    (isInf (divM x y) = false → divM x y ≠ zero →
+        FinN (divM x y) ∧ |val (divM x y) - val x / val y| ≤ ulp (divM x y)) := by
+  rw [Dnum.divM_eq_div x y (Or.inl ⟨hx.1, hy.1⟩)]
+  exact Dnum.div_ulp_q x y hx hy
+
+/-- the same for the model's `div` (coefficient `div128 a b = a·10^16 / b` by definition), which
+is what `Gsu.Model.NumOps` (C26) composes -/
+theorem div_ulp_spec (x y : Dnum) (hx : FinN x) (hy : FinN y) :
     (isInf (div x y) = true →
         (div x y = posInf ∧ maxFinite < val x / val y) ∨
         (div x y = negInf ∧ val x / val y < -maxFinite)) ∧
